@@ -149,6 +149,8 @@ let run_case (case : string) (implobs : string option) : string =
   let events = List.filter (fun s -> s <> "") (List.map String.trim (Str.split (Str.regexp_string " ; ") evs)) in
   let buf = Buffer.create 256 in
   let sortcontract = ref true in
+  let classes = ref [] in
+  let add_class c = if not (List.mem c !classes) then classes := c :: !classes in
   (* build sim + initial values + view oracle *)
   let param = ref (match flav with "dynamic" -> None | "-" -> None | _ -> Some (int_of_string arg)) in
   let (init_view : nat list option), (sim : sim), (oracle : nat list -> nat list -> bool) =
@@ -165,7 +167,10 @@ let run_case (case : string) (implobs : string option) : string =
           | "dynamic" -> (None, { t_buf = vs; t_limit = O })
           | _ -> let (v, s) = tail_init (i2n (int_of_string arg)) vs in (Some v, s)) in
       (iv, mk_sim ~batched ~has_param:true ~static_param:(flav = "static") ~st0
-         ~on_diff:tail_on_diff ~on_param:tail_update_limit,
+         ~on_diff:tail_on_diff
+         ~on_param:(fun st n ->
+             if tail_shrink_over_len st.t_limit n (length st.t_buf) then add_class "tail_shrink_over_len";
+             tail_update_limit st n),
        (fun src view ->
           let l = (match !param with Some l -> l | None -> 0) in
           let n = List.length src in
@@ -220,6 +225,7 @@ let run_case (case : string) (implobs : string option) : string =
                            if n' < 0 then None else take acc n' rest in
                    take [] want !cursor) in
               answer input vals) in
+        if sort_truncate_misaligned st d then add_class "sort_truncate_misaligned";
         let r = sort_on_diff cmp st d ans in
         (match r with
          | Ok (_, outs) ->
@@ -298,11 +304,50 @@ let run_case (case : string) (implobs : string option) : string =
         else failwith ("bad event " ^ ev)
       end) events;
   if not !sortcontract then Buffer.add_string buf " ok:sortcontract=0";
+  List.iter (fun c -> Buffer.add_string buf (" class=" ^ c)) (List.rev !classes);
   Buffer.contents buf
+
+(* diffs emitted per event, as text (for the batched/unbatched comparison, C13) *)
+let emitted_per_event (obs : string) : string list list =
+  List.map (fun ev ->
+      List.concat_map (fun tok ->
+          List.concat_map (fun r ->
+              if starts_with "R:" r then begin
+                let body = after "R:" r in
+                let body = (match String.index_opt body '@' with Some i -> String.sub body 0 i | None -> body) in
+                String.split_on_char '|' body
+              end else []) (String.split_on_char '+' tok)) (words ev))
+    (Str.split (Str.regexp_string " ; ") obs)
+
+let strip_classes (obs : string) : string * string list =
+  let ws = words obs in
+  (String.concat " " (List.filter (fun w -> not (starts_with "class=" w)) ws),
+   List.filter (fun w -> starts_with "class=" w) ws)
+
+let run_case_ub (case : string) (implobs : string option) : string =
+  (* head = kind flav ub arg vec ; run unbatched then batched, compare the emitted diffs *)
+  let set_bat b =
+    match Str.bounded_split_delim (Str.regexp_string " ub ") case 2 with
+    | [a; c] -> a ^ " " ^ b ^ " " ^ c
+    | _ -> failwith "bad ub case" in
+  let iu, ib = (match implobs with
+      | None -> (None, None)
+      | Some o ->
+        (match Str.bounded_split_delim (Str.regexp_string " || ") o 2 with
+         | [a; b] ->
+           let b = (match Str.bounded_split_delim (Str.regexp_string " ok:samediffs=") b 2 with x :: _ -> x | [] -> b) in
+           (Some a, Some b)
+         | _ -> (None, None))) in
+  let ou, cu = strip_classes (run_case (set_bat "u") iu) in
+  let ob, cb = strip_classes (run_case (set_bat "b") ib) in
+  let same = (emitted_per_event ou = emitted_per_event ob) in
+  let cls = List.sort_uniq compare (cu @ cb) in
+  ou ^ " || " ^ ob ^ " ok:samediffs=" ^ b2s same ^ String.concat "" (List.map (fun c -> " " ^ c) cls)
 
 let run_line (line : string) =
   let case, implobs =
     match String.index_opt line '\t' with
     | Some i -> (String.sub line 0 i, Some (String.sub line (i + 1) (String.length line - i - 1)))
     | None -> (line, None) in
-  print_string (run_case case implobs); print_newline ()
+  let is_ub = (match words case with _ :: _ :: "ub" :: _ -> true | _ -> false) in
+  print_string (if is_ub then run_case_ub case implobs else run_case case implobs); print_newline ()
